@@ -231,8 +231,16 @@ func (b *bloomcache) hasCached(k cid.Cid) (has bool, ok bool) {
 		// in case of invalid key is forwarded deeper
 		return false, false
 	}
-	if b.BloomActive() {
-		blr := b.bloom.Load().HasTS(k.Hash())
+	// Read the filter pointer and the active flag consistently. Rebuild
+	// deactivates the cache before it swaps in an empty filter and activates it
+	// only after that filter has been populated, so "active" says that the
+	// *current* filter is complete. Checking the flag and then loading the
+	// pointer would let a concurrent Rebuild swap the filter in between, and
+	// the still empty filter would give a false negative; so would using a
+	// filter that was loaded before it was replaced.
+	bl := b.bloom.Load()
+	if b.BloomActive() && b.bloom.Load() == bl {
+		blr := bl.HasTS(k.Hash())
 		if !blr { // not contained in bloom is only conclusive answer bloom gives
 			b.hits.Inc()
 			return false, true
